@@ -348,6 +348,21 @@ class Check(PropertyCheck):
                                        "how": "exhaustive fault assignment on a small scenario, judged end to end"},
                                       found_input=True, signature="link:" + why[:50])
                         return n
+        # retry-budget boundary: every mix of lost and detectably corrupted transmissions of the first frames
+        # (up to the whole budget of one frame and into the next), both directions
+        for ln in range(depth + 1, 8):
+            for a in itertools.product(["drop", "corrupt"], repeat=ln):
+                for direction in ("n2h", "h2n"):
+                    obs = run_assignment(1, 2, 2, a if direction == "n2h" else (), a if direction == "h2n" else ())
+                    n += 1
+                    why = self.judge(obs)
+                    if why:
+                        rep.violation({"input": {"window": 1, "ncp_submits": 2, "host_submits": 2, "faulty_line": direction,
+                                                 "assignment": list(a)},
+                                       "observed": obs, "required": why,
+                                       "how": "exhaustive loss/corruption assignment around the retry budget, judged end to end"},
+                                      found_input=True, signature="link:" + why[:50])
+                        return n
         return n
 
     def extra_checks(self, rep, tier, rng):
